@@ -235,6 +235,18 @@ Section Sound.
     apply mem_in in Hv.
     assert (HI : TInv (filter_schema fuel S p)).
     { unfold filter_schema.
+      apply (fold_left_inv TInv).
+      2:{ intros t n Hn Ht. destruct (vfind S n) as [ty|] eqn:Ev; [|exact Ht]. destruct (has_key n t) eqn:Ek; [exact Ht|].
+          intros T0 gs g Hl Hin. destruct (String.eqb T0 n) eqn:E.
+          - apply String.eqb_eq in E; subst T0. unfold has_key in Ek. destruct (lookup n t) as [old|] eqn:El0; [discriminate|].
+            assert (Hl' : gs = all_fields ty).
+            { clear -Hl El0. induction t as [|[k v] t IH]; simpl in *.
+              - rewrite String.eqb_refl in Hl. inversion Hl; reflexivity.
+              - destruct (String.eqb n k); [discriminate|]. apply IH; assumption. }
+            subst gs. apply (sel_all n ty); [apply R_dirarg; exact Hn | exact Ev | exact Hin].
+          - apply (Ht T0 gs g); [|exact Hin]. clear -Hl E. induction t as [|[k v] t IH]; simpl in *.
+            + rewrite E in Hl. discriminate.
+            + destruct (String.eqb T0 k); [exact Hl | apply IH; exact Hl]. }
       apply root_step_inv; [apply root_step_inv; [apply root_step_inv; [apply TInv_nil|]|]|].
       - intros n E. split; [apply R_query; exact E | symmetry; apply Hq; exact E].
       - intros n E. split; [apply R_mutation; exact E | symmetry; apply Hm; exact E].
@@ -250,7 +262,7 @@ Definition S_refute : vsrc :=
                   {| vt_name := "Named"; vt_abstract := true; vt_fields := [ {| vf_name := "name"; vf_type := "String"; vf_args := [] |} ]; vt_possible := ["Fish"] |};
                   {| vt_name := "Fish"; vt_abstract := false; vt_fields := [ {| vf_name := "name"; vf_type := "String"; vf_args := [] |} ]; vt_possible := [] |};
                   {| vt_name := "String"; vt_abstract := false; vt_fields := []; vt_possible := [] |} ];
-     v_query := Some "Query"; v_mutation := None; v_subscription := None |}.
+     v_query := Some "Query"; v_mutation := None; v_subscription := None; v_dirargs := ["String"] |}.
 Definition p_refute : operm := {| p_query := AF false [("pet", AF true [])]; p_mutation := AF false []; p_subscription := AF false [] |}.
 Lemma view_complete_refuted :
   std_roots S_refute /\ Selectable S_refute p_refute "Named" "name" /\
